@@ -111,25 +111,35 @@ func buildPlain(cs *CfgCase) (*flyt.NodeBuilder, *cfgProbe) {
 		case sMode:
 			opts = append(opts, rawOr(flyt.WithBatchErrorHandling(modeVals[s.Val]), raw))
 		case sPrep:
-			if s.Val == 0 {
+			if s.Val == 2 {
+				opts = append(opts, flyt.WithPrepFunc(nil))
+			} else if s.Val == 0 {
 				opts = append(opts, flyt.WithPrepFunc(prepR(0)))
 			} else {
 				opts = append(opts, flyt.WithPrepFuncAny(prepA(1)))
 			}
 		case sExec:
-			if s.Val == 0 {
+			if s.Val == 2 {
+				opts = append(opts, flyt.WithExecFunc(nil))
+			} else if s.Val == 0 {
 				opts = append(opts, flyt.WithExecFunc(execR(0)))
 			} else {
 				opts = append(opts, flyt.WithExecFuncAny(execA(1)))
 			}
 		case sPost:
-			if s.Val == 0 {
+			if s.Val == 2 {
+				opts = append(opts, flyt.WithPostFunc(nil))
+			} else if s.Val == 0 {
 				opts = append(opts, flyt.WithPostFunc(postR(0)))
 			} else {
 				opts = append(opts, flyt.WithPostFuncAny(postA(1)))
 			}
 		case sFB:
-			opts = append(opts, flyt.WithExecFallbackFunc(fb(s.Val)))
+			if s.Val == 2 {
+				opts = append(opts, flyt.WithExecFallbackFunc(nil))
+			} else {
+				opts = append(opts, flyt.WithExecFallbackFunc(fb(s.Val)))
+			}
 		}
 	}
 	optsBefore := append([]any(nil), opts...)
@@ -154,25 +164,35 @@ func buildPlain(cs *CfgCase) (*flyt.NodeBuilder, *cfgProbe) {
 		case sMode:
 			b = b.WithBatchErrorHandling(modeVals[s.Val])
 		case sPrep:
-			if s.Val == 0 {
+			if s.Val == 2 {
+				b = b.WithPrepFunc(nil)
+			} else if s.Val == 0 {
 				b = b.WithPrepFunc(prepR(0))
 			} else {
 				b = b.WithPrepFuncAny(prepA(1))
 			}
 		case sExec:
-			if s.Val == 0 {
+			if s.Val == 2 {
+				b = b.WithExecFunc(nil)
+			} else if s.Val == 0 {
 				b = b.WithExecFunc(execR(0))
 			} else {
 				b = b.WithExecFuncAny(execA(1))
 			}
 		case sPost:
-			if s.Val == 0 {
+			if s.Val == 2 {
+				b = b.WithPostFunc(nil)
+			} else if s.Val == 0 {
 				b = b.WithPostFunc(postR(0))
 			} else {
 				b = b.WithPostFuncAny(postA(1))
 			}
 		case sFB:
-			b = b.WithExecFallbackFunc(fb(s.Val))
+			if s.Val == 2 {
+				b = b.WithExecFallbackFunc(nil)
+			} else {
+				b = b.WithExecFallbackFunc(fb(s.Val))
+			}
 		}
 	}
 	return b, pr
@@ -194,6 +214,9 @@ func fold(seq []Setting) [numSettings]int {
 	}
 	for _, s := range seq {
 		f[s.Kind] = s.Val
+		if s.Kind >= sPrep && s.Val == 2 {
+			f[s.Kind] = -1 // a nil function: the phase is back at its default
+		}
 	}
 	return f
 }
@@ -532,6 +555,27 @@ func runC19(c *Cfg) {
 	})
 	r.Exhaustive = true
 	r.Note(fmt.Sprintf("all setting sequences up to length %d over 8 setting kinds x 2 values, every option/builder split, plain and batch builders: %d sequences; the length-6 space (~1.7e7 sequences x 7 splits) is sampled, not enumerated", maxLen, total))
+	// a nil function given for a phase (Result-style setter / fallback setter) puts the phase back at its default —
+	// in the option form, in the builder form and in every mixture
+	var nilCases []*CfgCase
+	for k := sPrep; k <= sFB; k++ {
+		for v := 0; v < 2; v++ {
+			for other := 0; other < numSettings; other++ {
+				seqs := [][]Setting{
+					{{Kind: k, Val: v}, {Kind: k, Val: 2}},
+					{{Kind: k, Val: 2}, {Kind: k, Val: v}},
+					{{Kind: k, Val: v}, {Kind: other, Val: 1}, {Kind: k, Val: 2}},
+					{{Kind: sExec, Val: v}, {Kind: k, Val: 1 - v}, {Kind: k, Val: 2}, {Kind: other, Val: 0}},
+				}
+				for _, sq := range seqs {
+					for split := 0; split <= len(sq); split++ {
+						nilCases = append(nilCases, &CfgCase{Family: "nil-function-resets-phase", Seq: sq, Split: split})
+					}
+				}
+			}
+		}
+	}
+	parallel(c, len(nilCases), func(i int) { runCfg(c, nilCases[i]) })
 	n := c.Pick(50000, 3000000)
 	parallel(c, n, func(i int) {
 		rg := c.Rng("c19", i)
@@ -603,6 +647,33 @@ func runC19(c *Cfg) {
 				}
 				r.Nontrivial(fmt.Sprintf("deh %d %s %d", cc, build, n))
 			}
+		}
+	}
+	// last setting wins also when the node configures itself from inside its own prep (the last setting before the
+	// items run): concurrency and error handling set there apply to this very run
+	for _, pc := range []struct{ built, c int }{{1, 4}, {4, 0}, {0, 3}, {2, 5}} {
+		for _, stop := range []bool{false, true} {
+			n := 2*pc.c + 4
+			it := make([]ItemScript, n)
+			for j := range it {
+				it[j].K = 1
+			}
+			it[1].K = 2 // one item fails: stop vs continue shows
+			bc := &BatchCase{Family: "c19-configured-inside-prep", N: n, C: pc.c, Stop: stop, SetMode: true, Budget: 1, Items: it, Shape: "results", Build: []string{"builder", "options"}[pc.c%2], ExecStyle: "result", Gated: true, Policy: "holdfail", PrepSets: &PrepSets{BuiltC: pc.built}}
+			o := runBatchCase(bc)
+			r.Eval()
+			if o.Incon != "" {
+				r.Incon(o.Incon)
+				continue
+			}
+			r.Count("configured_inside_prep.cases", 1)
+			for _, f := range judgeBatch(bc, o) {
+				if f.Prop == "C08" || f.Prop == "C09" || f.Prop == "C07" {
+					r.Violate("C19", "C19:set-inside-prep:"+f.Key, fmt.Sprintf("node built with concurrency %d and stop=%v; its prep sets concurrency %d and stop=%v through the builder methods (the last settings before the items run): %s", pc.built, !stop, pc.c, stop, f.Detail), bc)
+					break
+				}
+			}
+			r.Nontrivial(fmt.Sprintf("cip %d %d %v", pc.built, pc.c, stop))
 		}
 	}
 	// pool size <= 0 means one worker (gated)
